@@ -32,6 +32,23 @@ Theorem C06_draws_in_worker_would_be_schedule_dependent :
     fst (run_tasks_drawing nat nat nat (fun s => (s, S s)) (fun a => a) sigma2 2 0).
 Proof. exact draws_in_worker_schedule_dependent. Qed.
 
+(* the one shared cell the samples read (best_window_size, copied into every sample): written on the main thread BEFORE the first draw - as the
+   source does, see C06_src_jobs_write_nothing - the samples are those of a sequential run; a write nobody reads is harmless wherever it falls;
+   a write by a worker that the draws DO read makes the samples depend on the schedule *)
+Theorem C06_cell_written_before_the_draws (A St C : Type) (draw : C -> St -> A * St) (write : C -> C) n c s :
+  fst (interleaved A St C draw write (EWrite :: repeat EDraw n) c s) = fst (draws A St (draw (write c)) n s).
+Proof. exact (write_first_is_sequential A St C draw write n c s). Qed.
+Theorem C06_unread_write_is_harmless (A St C : Type) (draw : C -> St -> A * St) (write : C -> C) :
+  (forall c c' s, draw c s = draw c' s) ->
+  forall evs c s, fst (interleaved A St C draw write evs c s) = fst (interleaved A St C draw write (filter is_draw evs) c s).
+Proof. exact (unread_write_is_harmless A St C draw write). Qed.
+Theorem C06_shared_write_in_worker_would_be_schedule_dependent :
+  exists evs1 evs2,
+    filter is_draw evs1 = filter is_draw evs2 /\
+    fst (interleaved nat nat nat (fun c s => (c + s, S s)) (fun _ => 7) evs1 0 0) <>
+    fst (interleaved nat nat nat (fun c s => (c + s, S s)) (fun _ => 7) evs2 0 0).
+Proof. exact shared_write_in_worker_schedule_dependent. Qed.
+
 Example C06_example :
   pooled nat nat nat (fun s => (s * 2, S s)) (fun a => a + 1) [2; 0; 1] 2 7 3 = ([Some 8; Some 7; Some 9], 5).
 Proof. vm_compute. reflexivity. Qed.
@@ -51,3 +68,15 @@ Theorem C06_src_pool_section :
    "for (i, result) in enumerate(result_pool): [chance_best_alignments.append(result.result()); chance_disorders.append(chance_best_alignments[-1].disorder)]"%string;
    "if precision_level is not None: [if isinstance(precision_level, str): [precision_level = PRECISION_LEVEL[precision_level]]; assert 0 < precision_level < 1.0; variation_coeff = np.std(chance_disorders) / np.mean(chance_disorders); confidence = 1.96; required_samples = np.ceil((variation_coeff * confidence / precision_level) ** 2).astype(np.int32); if required_samples > n_samples: [result_pool = [p.submit(job, *(dissimilarity, sampler.sample_from_continuum)) for _ in range(required_samples - n_samples)]; for (i, result) in enumerate(result_pool): [chance_best_alignments.append(result.result())]]]"%string].
 Proof. reflexivity. Qed.
+
+(* the jobs only READ their arguments (each is a single call of an alignment routine on the continuum it was handed), and the one attribute of the
+   input that samples copy - best_window_size - is measured by the submitting thread before the pool is created *)
+Theorem C06_src_jobs_write_nothing :
+  jobs_src =
+  [("_compute_best_alignment_job"%string, "(dissimilarity, continuum) return continuum.get_best_alignment(dissimilarity)"%string);
+   ("_compute_fast_alignment_job"%string, "(dissimilarity, continuum) if continuum.best_window_size == np.inf: [return continuum.get_best_alignment(dissimilarity)]; return continuum.get_fast_alignment(dissimilarity, continuum.best_window_size)"%string);
+   ("_compute_gamma_k_job"%string, "(dissimilarity, alignment, category) return alignment.gamma_k_disorder(dissimilarity, category)"%string);
+   ("_compute_soft_alignment_job"%string, "(dissimilarity, continuum) return continuum.get_best_soft_alignment(dissimilarity)"%string)] /\
+  nth 7 before_pool_src ""%string = "if fast: [job = _compute_fast_alignment_job; self.measure_best_window_size(dissimilarity)]"%string /\
+  length before_pool_src = 8.
+Proof. repeat split. Qed.
